@@ -27,14 +27,17 @@ def sh(cmd, cwd, timeout=1800):
 
 def main():
     prop = sys.argv[1]
-    wt = "/tmp/seed/%s" % prop
-    ns = sys.argv[2:] or sorted(os.listdir(os.path.join(wt, "seed_out")))
+    base = os.environ.get("SEED_BASE", "/tmp/seed")
+    offset = int(os.environ.get("SEED_OFFSET", "0"))  # wave 2 seeds are numbered after wave 1
+    wt = "%s/%s" % (base, prop)
+    ns = sys.argv[2:] or sorted(x for x in os.listdir(os.path.join(wt, "seed_out")) if x.isdigit())
     env = "PYTHONPATH=%s OMP_NUM_THREADS=8 " % wt
     for n in ns:
         d = os.path.join(wt, "seed_out", n)
         if not os.path.exists(os.path.join(d, "patch.diff")):
             continue
-        res = {"seed": "%s-%s" % (prop, n)}
+        sid = "%s-%d" % (prop, int(n) + offset)
+        res = {"seed": sid}
         sh("git checkout -- . ", wt)
         demo = "demo.py" if os.path.exists(os.path.join(d, "demo.py")) else None
         if demo is None:
@@ -60,7 +63,7 @@ def main():
         res["confirmed"] = ok
         print(json.dumps(res))
         if ok:
-            dst = os.path.join(VERIF, "seeded", "%s-%s" % (prop, n))
+            dst = os.path.join(VERIF, "seeded", sid)
             if os.path.exists(dst):
                 shutil.rmtree(dst)
             shutil.copytree(d, dst, ignore=shutil.ignore_patterns("__pycache__", "*.so", "*.o", "build*"))
